@@ -17,9 +17,14 @@ CLAIMED = {
             "stateless model checking of the real client: a canceller thread (or a context deadline fired by the clock pseudo-thread) is placed by the preemption-bounded DFS at every scheduling point of every other thread",
             "Query scenarios (select, insert, streamed insert, LZ4, telemetry, stalled writes) and the handshake run on the real instrumented client inside a synctest bubble; explicit cancel() and context deadlines (1 s / 5 s fake) with read timeouts 3 s / 100 ms; every schedule up to the bound (quick 1, thorough 2; handshake one more in thorough) is executed and checked for: error matches the context, return within read timeout + 1 s of fake time after the context ended (clock deviations discounted), exactly one well-formed Cancel byte or none, connection and client closed (or, when the cancellation followed EndOfStream, a fully usable client), no library goroutine alive at return.",
             "Trusted: as C04. A cancellation that lands after the server's EndOfStream was consumed is treated as landing after the query (client may stay open if the C04 probe passes). Failures with a cause of their own that precede the context's end (read time-out of the hello, handshake time-out) are C13's business and are not judged here."),
+    "C12": ("model_checking", "DESIGN.md §4 C12, §2 E1",
+            "schedule enumeration (preemption-bounded DFS under the controlled scheduler) with the Go race detector as the per-execution oracle; the scheduler's quiescence barrier adds no happens-before edges, so -race sees only the library's own synchronisation",
+            "The query scenarios of C04 plus an insert during which the server reports progress while the client still streams, each with OpenTelemetry instrumentation on and off, fault-free and with a server exception, plus Close / IsClosed / ServerInfo / cancel from a foreign goroutine, are explored up to the bound (quick 1, thorough 2) in a -race build of the instrumented client; any report whose two accesses both lie in ch-go packages is a violation, attributed to the schedule that produced it.",
+            "Trusted: the Go race detector (happens-before based: it reports races that the executed schedule exposes, schedules beyond the bound and code the scenarios never run are not covered); simnet's real mutex stands for the kernel's socket synchronisation; no-op OTel providers. Pool scenarios are covered with C11's harness."),
 }
 
 ENGINE = {
+    "C12": "E1 -race (checks/sched built with go1.26 -race, vrt/vsched)",
     "C10": "E1+E2+E3 (checks/sched, vrt/vsched, simnet, refwire)",
     "C04": "E1+E2+E3 (checks/sched, vrt/vsched, simnet, refwire)",
     "C20": "E4-ENUM (cmd/seqw, checks/seq)",
